@@ -266,6 +266,8 @@ func julianDayAsNumberLit(t time.Time) *sql.NumberLit {
 }
 
 func julianDay(t time.Time) float64 {
+	// SQLite's 'now' is UTC, whatever the time zone of the node.
+	t = t.UTC()
 	year := t.Year()
 	month := int(t.Month())
 	day := t.Day()
